@@ -39,6 +39,14 @@ func main() {
 		fmt.Printf("%d sites, %d proved\n", tot, ok)
 		return
 	}
+	if os.Args[2] == "byname" {
+		for _, f := range p.ModuleFuncs() {
+			if f.String() == os.Args[3] || f.Name() == os.Args[3] {
+				f.WriteTo(os.Stdout)
+			}
+		}
+		return
+	}
 	fn := p.Func(os.Args[1], os.Args[2], os.Args[3])
 	if len(os.Args) > 4 && os.Args[4] == "zone" {
 		for _, f := range core.WithAnons(fn) {
